@@ -28,6 +28,12 @@ CHECKS = {
    text="Both wall-clock edges of every transition of every zone are probed to the nanosecond, plus the extreme civil datetimes; classification, all four strategies and every civil->zoned entry point are compared with the instant-direction oracle; out-of-range results must be errors, not panics.",
    note="Trusted: reftz.rs instant direction (C03). Civil times displayed by >= 3 instants are skipped and counted.",
    design="DESIGN.md section 3 C04"),
+ "C14": dict(
+   technique="model-based differential testing of the following/preceding iterators against the reference transition list (explicit + rule-generated), bounded pulls and to-exhaustion runs under a step cap; structured starts around every hand-over + proptest",
+   category="exploration",
+   text="Iterators are started on, just before and just after transitions of every zone, at range limits and random instants, in both directions; monotonicity, strictness, per-item info (vs data and vs direct lookup), completeness and absence of spurious items are checked over the covered range; featured/synthetic zones (all zones in thorough) are iterated to exhaustion with a termination cap.",
+   note="Trusted: reftz.rs transition list. Recorded transitions that change nothing may be yielded (allowed by the statement).",
+   design="DESIGN.md section 3 C14"),
 }
 
 NOT_YET = {
